@@ -210,7 +210,7 @@ def run(R):
         R.check(not offenders, 'C08.R6', 'no-owned-headermap-iteration', '', 'owned HeaderMap::into_iter sites in tonic (each would need to handle None keys): %r' % offenders)
         # trailers and header metadata are merged, not replaced (client unary path, server request trailers)
         users = sorted({short(bd.path) for bd, bb, t in call_sites_in_crate(tonic, pat='MetadataMap::merge')})
-        R.floor('C08.R6', 'merge call sites', len(users), 3)
+        R.floor('C08.R6', 'merge call sites', len(users), 2)
 
     # ---------------------------------------------------------------- R5 base64 for binary values
     R.describe('C08.R5', 'Binary values: written with the no-pad engine, read with the padding-indifferent STANDARD engine (engine definitions checked in C04.R3)')
